@@ -2,7 +2,11 @@
 
 Every E-val value as the only splitter, as one of two splitters and as an unrelated extra
 field x salts (ASCII, non-ASCII, quote, backslash) x 3 weight vectors.  Oracle: a declared
-group is returned (the one R-hash/R-part names); values that print identically share a bucket."""
+group is returned (the one R-hash/R-part names); values that print identically share a bucket.
+Complete value families (mc/deepvals.py: every Unicode scalar value as a one-character id, every
+string <= 3 over a hostile alphabet, int / float / length ladders) and every code point of a range
+as a salt character are enumerated as well (quick: default salt, single splitter; thorough: 3 salts
+x single / pair / extra field, the whole BMP as salt characters)."""
 from __future__ import annotations
 
 from .. import impl, progcheck
@@ -13,7 +17,9 @@ from ..ref import parse as rp
 LEVEL = "model_checking"
 RULE = ("states = (salt, weight vector, splitter arity) programs; transitions = evaluations on every value of "
         "the E-val alphabet (str incl. non-ASCII/NUL/quotes/1e4..1e6 chars, big ints, special floats, bool, None) as "
-        "splitter, co-splitter and extra field; oracle = reference scheme + same-str pairs share the bucket")  # fmt: skip
+        "splitter, co-splitter and extra field, plus the complete families of mc/deepvals.py (all 1 112 064 Unicode scalar "
+        "values as one-character ids, all strings <= 3 over 14 hostile characters, int/float/length ladders) and every code point "
+        "of a range as a salt character; oracle = reference scheme + same-str pairs share the bucket")  # fmt: skip
 
 SALTS = [None, "", "s", "é", "日本", "e\u0301", "'", "\\", "a b", "\\'", "%s{0}", "🎲", "𝒳y𠀀", "\x7f\x01", "\u2028", "l’été", "“beta”", "‘a’", 'say "hi"', '"', "a\\"]
 WV = {
@@ -50,10 +56,77 @@ def _work(units):
     return acc.out()
 
 
+DEEP_SALTS = [None, "é'\\", "𝒳 salt"]
+
+
+def _deep(units):
+    """complete value families (mc/deepvals.py) as the only splitter, as the first of two
+    splitters, and as an ignored extra field"""
+    from .. import deepvals
+
+    acc = progcheck.Acc()
+    for salt, fam, chunk, mode in units:
+        values = deepvals.family(fam, chunk)
+        if mode == "single":
+            deepvals.check_family(acc, f"deep:{fam}:single", salt, ("uid",), 16, values)
+        elif mode == "pair":
+            deepvals.check_family(acc, f"deep:{fam}:pair", salt, ("uid", "org"), 3, values, {"org": "é"})
+        else:  # the value rides along as an undeclared extra field: one constant unit, one expected group
+            n = deepvals.check_family(acc, f"deep:{fam}:extra", salt, ("extra_", "uid"), 16, values, {"uid": "u1"})
+            ast = ("prog", "e", salt, ("uid",), ("ret", deepvals.groups(16)))
+            b = impl.build(rp.render(ast))
+            if b[0] == "ok":
+                base = impl.call(b[1], {"uid": "u1"})
+                for v in values:
+                    acc.add("evaluations")
+                    r = impl.call(b[1], {"uid": "u1", "extra_": v})
+                    if r != base or r[0] != "ok":
+                        acc.violation({"kind": "extra", "sub": "eval", "text": rp.render(ast), "env": enc({"uid": "u1", "extra": v}), "observed": short(repr((base, r)))})
+            acc.add("deep_distinct_groups", n)
+    return acc.out()
+
+
+def _salt_chars(units):
+    """every code point of the slice as a one-character salt and inside a longer salt ("a<c>b"); 6 units each"""
+    acc = progcheck.Acc()
+    envs = [{"uid": u} for u in ("", "u1", 7, None, "é", 2.5)]
+    for lo, hi, step in units:
+        for c in range(lo, hi, step):
+            if 0xD800 <= c <= 0xDFFF:
+                continue
+            for salt in (chr(c), "a" + chr(c) + "b"):
+                ast = ("prog", "e", salt, ("uid",), ("ret", WV["123"]))
+                try:
+                    text = rp.render(ast)
+                except ValueError:
+                    text = None
+                if text is None or rp.classify(text) != ("accept", ast):
+                    acc.add("salts_not_expressible")
+                    continue
+                progcheck.check_prog(acc, ast, envs, "saltchar")
+    return acc.out()
+
+
 def run(res, tier):
     units = [(s, w, tier) for s in SALTS for w in WV]
     for w in pmap(_work, permuted(units, "c15"), chunk=1):
         res.merge_worker(w)
+    if True:
+        from .. import deepvals
+
+        # quick: every family as the only splitter under the default salt; thorough: x 3 salts x (single, pair, extra)
+        deep = [(s, f, c, m) for s in DEEP_SALTS for (f, c) in deepvals.units() for m in ("single", "pair", "extra") if not (m == "extra" and s is not None)
+                and (tier == "thorough" or (s is None and m == "single"))]  # fmt: skip
+        for w in pmap(_deep, permuted(deep, "c15deep"), chunk=1):
+            res.merge_worker(w)
+        res.set("deep_families", {f: deepvals.CHUNKS[f] for f in deepvals.FAMILIES})
+        # salts: quick = every code point below U+0400 and every 211th above; thorough = the whole BMP and every 16th astral one
+        if tier == "thorough":
+            su = [(lo, lo + 0x400, 1) for lo in range(0, 0x10000, 0x400)] + [(lo, lo + 0x4000, 16) for lo in range(0x10000, 0x110000, 0x4000)]
+        else:
+            su = [(lo, lo + 0x80, 1) for lo in range(0, 0x400, 0x80)] + [(lo, min(lo + 0x8000, 0x110000), 211) for lo in range(0x400, 0x110000, 0x8000)]
+        for w in pmap(_salt_chars, permuted(su, "c15salt"), chunk=1):
+            res.merge_worker(w)
     from ..common import hostile_runs
 
     hostile_runs(res, "mc.checks.c15", "_work", [[s_, "123", "quick"] for s_ in (None, "s", "é", "'")])
